@@ -15,9 +15,9 @@ Obs(it) == LET m == {o \in SeqSet(Rec.observed) : o.slot = it[1] /\ o.v = it[2]}
 Exp(it) == Count(Rec.lang, A, Rec.maxSmall, Rec.fileKind, it)
 LayerA == IF Rec.stray > 0 THEN "NonLiteralReported"
           ELSE IF Rec.badvalue > 0 THEN "WrongValue"
-          ELSE IF \E it \in Items(Rec.lang) : Obs(it) < Exp(it) THEN "Missed"
-          ELSE IF \E it \in Items(Rec.lang) : Obs(it) > Exp(it) /\ Exp(it) = 0 THEN "Spurious"
-          ELSE IF \E it \in Items(Rec.lang) : Obs(it) > Exp(it) THEN "Duplicate"
+          ELSE IF \E it \in ItemsOf(Rec.lang, Rec.fileKind) : Obs(it) < Exp(it) THEN "Missed"
+          ELSE IF \E it \in ItemsOf(Rec.lang, Rec.fileKind) : Obs(it) > Exp(it) /\ Exp(it) = 0 THEN "Spurious"
+          ELSE IF \E it \in ItemsOf(Rec.lang, Rec.fileKind) : Obs(it) > Exp(it) THEN "Duplicate"
           ELSE "ok"
 
 TraceInit == tid = 1 /\ lang = "python" /\ allowed = {} /\ maxSmall = 10 /\ fileKind = "plain" /\ done = FALSE
